@@ -142,6 +142,12 @@ def replay_edges(ctx, cfg, tag, nrand, rand_len):
     ctx.add_tlc(cfg, res, "exhaustive, design variants, edge dump")
     g = vlib.graph_from_tlc(res.stdout)
     del res.stdout
+    # vacuity guard: the graph must contain every kind of step the predicates talk about
+    kinds = {(a["op"], a["res"]) for (_, a, _) in g.edges} | {("wake", "") for (_, a, _) in g.edges if a["woken"]}
+    need = {("ready", "ready"), ("ready", "pending"), ("poll", "ok"), ("poll", "tlserr"), ("poll", "timeout"),
+            ("drop", ""), ("advance", ""), ("call", ""), ("wake", "")}
+    if need - kinds:
+        raise vlib.ToolError("%s: the state graph lacks steps %s" % (cfg, sorted(need - kinds)))
     paths, covered, total = path_cover_long(g, ctx.rng)
     jobs = []
     for k in range(nrand):     # seeded random walks, judged by TLC only
@@ -225,7 +231,12 @@ def replay_edges(ctx, cfg, tag, nrand, rand_len):
         st[k] = st.get(k, 0) + v
     cov["exhaustive"] = True
     if len(cov["samples"]) < 4:
-        best = max(range(nrand, len(jobs)), key=lambda i: (nontrivial(jobs[i]["ops"]), -abs(len(jobs[i]["ops"]) - 9)))
+        def score(i):
+            ops = jobs[i]["ops"]
+            got = {(a["op"], a["res"]) for a in ops} | {("wake", "") for a in ops if a["woken"]}
+            return (len(got & {("ready", "pending"), ("wake", ""), ("poll", "ok"), ("poll", "tlserr"), ("poll", "timeout")}),
+                    -len(ops))
+        best = max(range(nrand, len(jobs)), key=score)
         cov["samples"].append({"spec_cfg": cfg, "schedule": jobs[best], "observed_trace": runs[best]})
         if nrand:
             cov["samples"].append({"random_walk": jobs[0], "observed_trace": runs[0][:16]})
@@ -250,6 +261,12 @@ def run(ctx):
         replay_edges(ctx, "MC_C18_thorough.cfg", "c18t", nrand=3000, rand_len=60)
         replay_edges(ctx, "MC_C18_thorough_t3.cfg", "c18t3", nrand=0, rand_len=0)
     st = ctx.cov.get("driver_stats", {})
+    for a in ACCS:      # every kind of observation must have been made on each acceptor
+        seen = {k: st.get(k % a, 0) for k in ("res:%s:ok", "res:%s:tlserr", "res:%s:timeout", "ready:%s:ready",
+                                               "ready:%s:pending")}
+        ctx.cov["per_acceptor"][a]["observed"] = {k.split(":", 2)[0] + ":" + k.split(":", 2)[2]: v for k, v in seen.items()}
+        if not ctx.violations and min(seen.values()) == 0:
+            raise vlib.ToolError("%s acceptor: some kind of observation was never made: %s" % (a, seen))
     if st.get("echo_failed", 0) and not ctx.violations:
         raise vlib.ToolError("payload comparison failed %d times but no run was rejected" % st["echo_failed"])
     ctx.cov["data_intact_clause"] = {
